@@ -376,9 +376,16 @@ def schema_strategy(max_types=5, rich=True):
                 for (bq, pn) in list(excl):
                     if bq in anc_of.get(q0, set()) and (q0, pn) not in excl:
                         excl.append((q0, pn))
+            # entries where the constraint is only inherited (declared on an ancestor)
+            inherited_excl = [(q1, pn) for (q1, pn) in excl
+                              if not any(mm.get('name') == pn or (mm['kind'] == 'constraint' and pn in mm['text'])
+                                         for mm in decl_of0[q1][1]['members'])]
             for q0, (m0, d0) in sorted(decl_of0.items()):
                 if excl and draw(st.integers(0, 1)) == 0:
-                    tq, pn = draw(st.sampled_from(sorted(excl)))
+                    if inherited_excl and draw(st.integers(0, 2)) > 0:
+                        tq, pn = draw(st.sampled_from(sorted(inherited_excl)))
+                    else:
+                        tq, pn = draw(st.sampled_from(sorted(excl)))
                     nm = 'sel_' + d0['name'].lower()
                     if nm not in (set(props_of.get(q0, {})) | set(links_of.get(q0, {}))) and \
                             not any(mm.get('name') == nm for mm in d0['members']):
@@ -844,3 +851,65 @@ def _expr_ok(s, d, expr, ptrs, known):
         if td is None or l not in _ptr_names(s, td):
             return False
     return True
+
+
+def mutate_small(schema, draw):
+    """exactly one small, deeply nested edit: the errmessage of a constraint (on a pointer or on a
+    link property), the value of an annotation (on a type, on a pointer, on a constraint).  Used to
+    generate migrations whose only difference sits several levels below a top-level object."""
+    from hypothesis import strategies as st
+    s = copy.deepcopy(schema)
+    sites = []
+    for m, ds in s['modules'].items():
+        for d in ds:
+            if d['kind'] != 'type':
+                continue
+            for mm in d['members']:
+                if mm['kind'] == 'annotation':
+                    sites.append(('type-annotation', mm, None))
+                if mm['kind'] in ('property', 'link'):
+                    for i, c in enumerate(mm.get('constraints', [])):
+                        if "errmessage := '" in c:
+                            sites.append(('ptr-constraint-errmessage', mm, i))
+                        if "description := '" in c:
+                            sites.append(('ptr-constraint-annotation', mm, i))
+                    for a in mm.get('annotations', []):
+                        sites.append(('ptr-annotation', a, None))
+                    for lpe in mm.get('linkprops', []):
+                        if len(lpe) > 2 and lpe[2] and "errmessage := '" in lpe[2]:
+                            sites.append(('linkprop-constraint-errmessage', lpe, None))
+    if not sites:
+        return s, []
+    kind, obj, i = sites[draw(st.integers(0, len(sites) - 1))]
+    if kind == 'type-annotation':
+        obj['value'] = obj['value'] + '!'
+    elif kind == 'ptr-constraint-errmessage':
+        obj['constraints'][i] = obj['constraints'][i].replace("errmessage := '", "errmessage := 'new ")
+    elif kind == 'ptr-constraint-annotation':
+        obj['constraints'][i] = obj['constraints'][i].replace("description := '", "description := 'x")
+    elif kind == 'ptr-annotation':
+        obj[1] += '!'
+    elif kind == 'linkprop-constraint-errmessage':
+        obj[2] = obj[2].replace("errmessage := '", "errmessage := 'new ")
+    return s, ['small:' + kind]
+
+
+def ensure_deep_sites(schema, draw):
+    """make sure the schema has deeply nested small things to edit: a constraint with an
+    annotation on a str property, a link property with a constraint that has an errmessage"""
+    from hypothesis import strategies as st
+    s = copy.deepcopy(schema)
+    for _m, ds in s['modules'].items():
+        for d in ds:
+            if d['kind'] != 'type':
+                continue
+            for mm in d['members']:
+                if mm['kind'] == 'property' and mm.get('target') == 'str' and mm.get('expr') is None \
+                        and not mm.get('overloaded') and not any('description' in c for c in mm['constraints']):
+                    if draw(st.integers(0, 1)):
+                        mm['constraints'].append(
+                            "min_len_value(1) { annotation std::description := 'nonempty' }")
+                if mm['kind'] == 'link' and mm.get('expr') is None and not mm.get('overloaded') \
+                        and not mm.get('linkprops') and draw(st.integers(0, 1)):
+                    mm['linkprops'].append(['lp', 'str', "max_len_value(9) { errmessage := 'lp too long' }"])
+    return s
